@@ -275,6 +275,8 @@ def gen(shard, rng, tier):
                 ov, x = {"data": '"%s"' % h}, {"cls": "data-odd", "expect": "reject", "bucket": "reject-data-odd", "shown": h}
             elif k == 2:
                 h = "0x" + rand_bytes(rng, rng.randint(0, 10)).hex() + rng.choice(["zz", "g0", "0x", "  ", "-1", "0 "]) + rand_bytes(rng, rng.randint(0, 3)).hex()
+                if rng.random() < 0.35:
+                    h = rng.choice(["0x0x", "0x0x" + rand_bytes(rng, rng.randint(1, 8)).hex(), "0x0x0x12", "0x 12", " 0x12", "0x12 ", "0x+12", "x12", "0x0X12", "0xx12"])
                 ov, x = {"data": json.dumps(h)}, {"cls": "data-nonhex", "expect": "reject", "bucket": "reject-data-nonhex", "shown": h}
             elif k == 3:
                 t = rng.choice(["5", "null", "true", "[]", "{}", "[1,2]"])
@@ -290,8 +292,14 @@ def gen(shard, rng, tier):
                 tx["to"] = rand_bytes(rng, 20)
                 ov, x = {"to": '"%s"' % tx["to"].hex()}, {"cls": "address-no-prefix", "expect": "either", "shown": ""}
             elif k == 7:
-                t = rng.choice(["5", "true", "[]", "{}", '"0xzz00000000000000000000000000000000000000"', '"0x 000000000000000000000000000000000000000"'])
+                t = rng.choice(["5", "true", "[]", "{}", '"0xzz00000000000000000000000000000000000000"', '"0x 000000000000000000000000000000000000000"',
+                                '"0x0x%s"' % ("11" * 19), '"0x%s "' % ("11" * 20), '" 0x%s"' % ("11" * 20), '"0x0x0x%s"' % ("11" * 20)])
                 ov, x = {"to": t}, {"cls": "address-malformed", "expect": "reject", "bucket": "reject-address-length", "shown": t}
+                if rng.random() < 0.15:
+                    # a doubled prefix in front of exactly 20 bytes: the address clause only demands 20 bytes, so this spelling is
+                    # unspecified (the ethaddr dependency accepts it); if accepted the value must be those 20 bytes
+                    tx["to"] = rand_bytes(rng, 20)
+                    ov, x = {"to": '"0x0x%s"' % tx["to"].hex()}, {"cls": "address-double-prefix", "expect": "either", "shown": ""}
             elif k in (8, 9, 10) and tx["kind"] != reftx.LEGACY:
                 n = rng.choice([0, 1, 31, 33, 20, 64]) if k != 10 else 32
                 key = rand_bytes(rng, n)
